@@ -269,7 +269,8 @@ def buffer_tables(prog, chk):
     pn = [p["n"] for p in fs.params]
     helpers = {"serializePayload", "serializeRaw", "serializeNested", "serializeTlv"}
     ov = {"memcpy": lambda I, p, n, a: a[0]}
-    for (L, tag, nc, fwd) in ((0, 1, 0, 0), (3, 1, 1, 0), (3, 0x1f, 0, 1), (3, 0x20, 0, 0), (255, 2, 0, 0), (255, 0x1f, 1, 1), (256, 2, 1, 1), (3, 0x1fff, 1, 0), (65535, 3, 0, 0), (65536, 3, 0, 0)):
+    for (L, tag, nc, fwd) in ((0, 1, 0, 0), (3, 1, 1, 0), (3, 0x1f, 0, 1), (3, 0x20, 0, 0), (255, 2, 0, 0), (255, 0x1f, 1, 1), (256, 2, 1, 1), (3, 0x1fff, 1, 0), (65535, 3, 0, 0), (65536, 3, 0, 0),
+                              (3, 0x20, 0, 1), (3, 0x20, 1, 0), (300, 1, 0, 1), (300, 1, 1, 0)):       # each flag alone, in both header forms
         for opt in (0, NOHDR):
             hdr = [] if opt else ref_header(tag, L, nc, fwd)
             need = None if (not opt and L > 0xffff) else L + len(hdr)
@@ -312,7 +313,8 @@ def buffer_tables(prog, chk):
     # ---- tlv_element.c: raw element
     fe = prog.fn("KSI_TlvElement_serialize", "tlv_element.c")
     en = [p["n"] for p in fe.params]
-    for (L, tag, nc, fwd) in ((0, 1, 0, 0), (3, 1, 1, 1), (3, 0x1f, 1, 0), (3, 0x20, 0, 0), (255, 2, 0, 1), (255, 0x1f, 0, 0), (256, 2, 0, 0), (65535, 3, 0, 0), (65536, 3, 0, 0)):
+    for (L, tag, nc, fwd) in ((0, 1, 0, 0), (3, 1, 1, 1), (3, 0x1f, 1, 0), (3, 0x20, 0, 0), (255, 2, 0, 1), (255, 0x1f, 0, 0), (256, 2, 0, 0), (65535, 3, 0, 0), (65536, 3, 0, 0),
+                              (3, 0x20, 0, 1), (3, 0x20, 1, 0), (300, 1, 0, 1), (300, 1, 1, 0), (3, 0x1fff, 1, 1)):       # each flag alone, in both header forms
         for opt in (0, NOHDR, NOMOVE):
             hdr = [] if opt == NOHDR else ref_header(tag, L, nc, fwd)
             need = None if (opt != NOHDR and L > 0xffff) else L + len(hdr)
